@@ -7,6 +7,7 @@ open Mitum Mitum.BallotCount Mitum.Voteproof
 def parseOp (t : String) : Option (Option Op) :=
   match t.splitOn ":" with
   | ["v", id, f] => id.toNat?.map (fun i => some (.vote i f))
+  | ["s", id, f] => id.toNat?.map (fun i => some (.voteSF i f))
   | ["c"] => some (some .count)
   | ["k"] => some none
   | _ => none
